@@ -77,6 +77,9 @@ type Profile struct {
 
 var Profiles = map[string]*Profile{}
 
+// AltRunners lets another engine contribute scenarios to a property's profile.
+var AltRunners = map[string]func(t *kernel.Tape, o Opts) *Outcome{}
+
 func Register(p *Profile) { Profiles[p.ID] = p }
 
 // FinishKernel folds the kernel result into the outcome (deadlock, budget, hazards, stuck).
@@ -125,4 +128,83 @@ func HashString(s string) string {
 		h >>= 4
 	}
 	return string(b)
+}
+
+// OpenStreams evaluates the stream lifecycle events of a run: it returns a description of
+// every stream (or stream copy) that was created during the run and was neither closed by
+// its reader nor read to its end.
+func OpenStreams(evs []kernel.Event) []string {
+	type st struct {
+		created  bool
+		done     bool
+		task     string
+		children int
+		childOK  map[string]bool
+	}
+	objs := map[int]*st{}
+	get := func(o int) *st {
+		if objs[o] == nil {
+			objs[o] = &st{childOK: map[string]bool{}}
+		}
+		return objs[o]
+	}
+	for _, e := range evs {
+		switch e.Site {
+		case "stream.new":
+			s := get(e.Obj)
+			s.created, s.task = true, e.Task
+		case "stream.eof", "stream.closeRecv":
+			get(e.Obj).done = true
+		case "copy.new":
+			s := get(e.Obj)
+			s.created, s.task = true, e.Task
+			n := 0
+			for _, c := range e.Detail {
+				n = n*10 + int(c-'0')
+			}
+			s.children = n
+		case "copy.eof", "copy.close":
+			get(e.Obj).childOK[e.Detail] = true
+		}
+	}
+	var out []string
+	var ids []int
+	for id := range objs {
+		ids = append(ids, id)
+	}
+	sort.Ints(ids)
+	for _, id := range ids {
+		s := objs[id]
+		if !s.created {
+			continue
+		}
+		if s.children > 0 {
+			for i := 0; i < s.children; i++ {
+				k := ""
+				for d := i; ; d /= 10 {
+					k = string(rune('0'+d%10)) + k
+					if d < 10 {
+						break
+					}
+				}
+				if !s.childOK[k] {
+					out = append(out, "copy #"+itoa(id)+" (made by "+s.task+"): child "+k+" of "+itoa(s.children)+" neither closed nor drained")
+				}
+			}
+		} else if !s.done {
+			out = append(out, "stream #"+itoa(id)+" (made by "+s.task+") neither closed by its reader nor drained")
+		}
+	}
+	return out
+}
+
+func itoa(i int) string {
+	if i == 0 {
+		return "0"
+	}
+	s := ""
+	for ; i > 0; i /= 10 {
+		s = string(rune('0'+i%10)) + s
+	}
+	return s
 }
